@@ -358,11 +358,10 @@ def tensor_pairs(chk):
     chk.require(rep is not None, "Tensor._replace not found")
     state = None
     for n in ast.walk(rep.node):
-        if isinstance(n, ast.For) and isinstance(n.iter, (ast.Tuple, ast.List)):
-            try:
-                state = list(ast.literal_eval(n.iter))
-            except Exception:
-                pass
+        if isinstance(n, ast.For):
+            v = A.literal_seq(n.iter, rep.node, T.module.tree)
+            if v and all(isinstance(x, str) for x in v):
+                state = v
     chk.require(state and len(state) >= 7, "cannot read Tensor's field tuple from Tensor._replace")
     chk.extra["tensor_state_fields"] = state
     wf = prog.func("yastn.tensor._output", "to_dict")
@@ -772,18 +771,23 @@ def guards(chk):
     rep = T.methods["_replace"]
     state = None
     for n in ast.walk(rep.node):
-        if isinstance(n, ast.For) and isinstance(n.iter, (ast.Tuple, ast.List)):
-            state = set(ast.literal_eval(n.iter))
+        if isinstance(n, ast.For):
+            v = A.literal_seq(n.iter, rep.node, T.module.tree)
+            if v and all(isinstance(x, str) for x in v):
+                state = set(v)
+    chk.require(state, "cannot read Tensor's field tuple from Tensor._replace")
     need = (state - {"data"}) | {"isdiag"}
     lists = []
     for n in ast.walk(wf.node):
         if isinstance(n, ast.Call) and A.call_name(n) == "all" and n.args and isinstance(n.args[0], ast.GeneratorExp):
             g = n.args[0]
-            if "meta[k] == d[k]" in A.text(g.elt) or "d[k] == meta[k]" in A.text(g.elt):
-                try:
-                    lists.append((n, set(ast.literal_eval(g.generators[0].iter))))
-                except Exception:
+            kv = A.text(g.generators[0].target)
+            et = A.text(g.elt)
+            if et in (f"meta[{kv}] == d[{kv}]", f"d[{kv}] == meta[{kv}]", f"not meta[{kv}] != d[{kv}]"):
+                v = A.literal_seq(g.generators[0].iter, wf.node, wf.module.tree)
+                if v is None:
                     raise AnalysisError("meta conformance key list is not a literal")
+                lists.append((n, set(v)))
     chk.require(len(lists) >= 2, f"to_dict(meta=...): expected 2 conformance checks, found {len(lists)}")
     for n, keys in lists:
         miss = need - keys
